@@ -73,6 +73,22 @@ def check(k, seed):
     if k % 7 == 3:
         prms.setdefault('MAX_HITS_OKTA0', 3)
     fails = []
+    if k % 7 in (1, 2):
+        # an MSA just above / at / just below the base of a listed layer, not a multiple of 100 ft (the MSA is given in ft above the
+        # aerodrome: any value is legal)
+        import random
+        rng = random.Random(seed * 67 + k)
+        try:
+            prelim = run_quiet(df, {kk: v for kk, v in prms.items() if kk not in ('MSA', 'MSA_HIT_BUFFER')})
+            bases = [float(b) for b in prelim.layers['height_base']]
+        except Exception:
+            bases = []
+        if bases:
+            prms = dict(prms)
+            prms['MSA'] = rng.choice(bases) + rng.choice([19.0, 1.0, 71.0, 0.0, -1.0, 99.0])
+            prms['MSA_HIT_BUFFER'] = rng.choice([0, 500, 1500])
+            if prms['MSA'] < 0:
+                prms['MSA'] = 0.0
     try:
         chunk = run_quiet(df, prms)
     except Exception as e:
